@@ -29,6 +29,7 @@ type style struct {
 	ZeroBefore  int  // index of the chunk before which one (0,nil) read is inserted (-1: none)
 	ErrAfter    int  // fail with errSrc instead of serving chunk index ErrAfter (-1: none)
 	ErrWithData bool // the failing read returns the data of chunk ErrAfter together with the error
+	Transient   bool // the error is returned once; the source then carries on (the consumer retries)
 }
 
 type src struct {
@@ -42,6 +43,7 @@ type src struct {
 	zeroDone bool
 	eof      bool
 	failed   bool
+	errDone  bool // transient style: the one error has been returned
 	closed   int
 	b        *tv.Batch
 }
@@ -66,8 +68,12 @@ func (s *src) Read(p []byte) (n int, err error) {
 		return 0, nil
 	}
 	if s.cleft == 0 {
-		if s.st.ErrAfter == s.ci && !(s.st.ErrWithData && s.ci < len(s.chunks)) {
-			s.failed = true
+		if s.st.ErrAfter == s.ci && !s.errDone && !(s.st.ErrWithData && s.ci < len(s.chunks)) {
+			if s.st.Transient {
+				s.errDone = true
+			} else {
+				s.failed = true
+			}
 			return 0, errSrc
 		}
 		if s.ci >= len(s.chunks) {
@@ -87,12 +93,20 @@ func (s *src) Read(p []byte) (n int, err error) {
 	copy(p, s.data[s.pos:s.pos+n])
 	s.pos += n
 	s.cleft -= n
-	if s.cleft == 0 && s.st.ErrWithData && s.st.ErrAfter == s.ci {
-		s.failed = true
-		return n, errSrc
+	var once error
+	if s.cleft == 0 && s.st.ErrWithData && s.st.ErrAfter == s.ci && !s.errDone {
+		if !s.st.Transient {
+			s.failed = true
+			return n, errSrc
+		}
+		s.errDone = true
+		once = errSrc
 	}
 	if s.cleft == 0 {
 		s.ci++
+		if once != nil {
+			return n, once
+		}
 		if s.ci >= len(s.chunks) && s.st.EOFWithData && s.st.ErrAfter != s.ci {
 			s.eof = true
 			return n, io.EOF
@@ -183,8 +197,17 @@ func run(b *tv.Batch, cs caseSpec) int {
 		total += l
 	}
 	all := mkData(total)
+	retry := false
+	for _, st := range cs.Styles {
+		retry = retry || (st.Transient && cs.Path == "read") // ReadAll and io.Copy stop at the first error
+	}
+	for _, st := range cs.Styles {
+		if st.ErrAfter >= 0 && !st.Transient { // a permanent error somewhere: retrying would never end
+			retry = false
+		}
+	}
 	tr := b.Start(tv.M{"kind": cs.Kind, "N": cs.N, "lens": cs.Lens, "closable": cs.Closable, "wcloser": cs.WCloser,
-		"path": cs.Path, "buf": cs.Buf})
+		"path": cs.Path, "buf": cs.Buf, "retry": retry})
 	var readers []io.Reader
 	off := 0
 	for i, l := range cs.Lens {
@@ -236,7 +259,7 @@ func run(b *tv.Batch, cs caseSpec) int {
 				break
 			}
 			b.Ev("read", tv.M{"k": cs.Buf, "n": n, "err": classify(err), "ok": check(buf[:n])})
-			if err != nil {
+			if err != nil && !(retry && classify(err) == "srcerr") { // a consumer that retries after a transient source error
 				break
 			}
 		}
@@ -289,8 +312,10 @@ func styles(nchunks int, thorough bool) []style {
 	}
 	for _, e := range es {
 		out = append(out, style{EOFWithData: false, ZeroBefore: -1, ErrAfter: e})
+		out = append(out, style{EOFWithData: e%2 == 1, ZeroBefore: -1, ErrAfter: e, Transient: true})
 		if e < nchunks {
 			out = append(out, style{EOFWithData: false, ZeroBefore: -1, ErrAfter: e, ErrWithData: true})
+			out = append(out, style{EOFWithData: e%2 == 0, ZeroBefore: -1, ErrAfter: e, ErrWithData: true, Transient: true})
 		}
 	}
 	return out
